@@ -29,9 +29,11 @@ CHAIN_RULE = ("chain suite: histories of 14+ operations on a real, fully wired n
 
 CHECKS = {
     "C20": {
-        "suites": [{"suite": "clock", "n_quick": 240, "n_thorough": 4000, "shards": 8}],
+        "suites": [{"suite": "clock", "n_quick": 240, "n_thorough": 4000, "shards": 8},
+                   {"suite": "settings", "n_quick": 800, "n_thorough": 40000, "shards": 4, "shards_thorough": 16, "seed_off": 20}],
+        "also_props": ["C04_settings.v"],
         "monitor_props": ["C20"],
-        "rule": "clock suite: Pulse cases (reading on / just before / just after / inside a period) and Start..Stop runs of the real Engine with scripted readings (stalls, exact half-way points, readings just before a boundary, a clock that does not advance) over occurrence/skip configurations; some pulses take their period from ValidationTimer() of settings that went through the repository's decoder (interval 2 s, timeout 3 s); a case is distinct by (kind, configuration, reading pattern)",
+        "rule": "clock suite: Pulse cases (reading on / just before / just after / inside a period) and Start..Stop runs of the real Engine with scripted readings (stalls, exact half-way points, readings just before a boundary, a clock that does not advance) over occurrence/skip configurations; some pulses take their period from ValidationTimer() of settings that went through the repository's decoder (interval 2 s, timeout 3 s); the settings suite compares every getter of the protocol settings decoder with the model's decoder on generated documents (the period the engines get is the spacing the chain rules use: C04_settings_timer_is_spacing); a case is distinct by (kind, configuration, reading pattern)",
         "trusted_base": ["time.Ticker and goroutine scheduling (the model takes the served clock readings as its input)"],
         "assumptions": ["timestamps stay within int64 nanoseconds (years 1678-2262), as time.Time.UnixNano requires",
                         "Stop is observed from the engine's own goroutine; the unsynchronised flag itself is a C16 item"],
@@ -119,11 +121,13 @@ CHECKS = {
         "assumptions": ["sig_ok and addr_of are oracles (recorded per input from the run)"],
     },
     "C04": {
-        "suites": chain_suites(4, extra=[{"suite": "forks", "n_quick": 96, "n_thorough": 3000, "shards": 8, "shards_thorough": 16, "seed_off": 4}]),
+        "suites": chain_suites(4, extra=[{"suite": "forks", "n_quick": 96, "n_thorough": 3000, "shards": 8, "shards_thorough": 16, "seed_off": 4},
+                                         # the spacing of blocks and the production period come out of one settings document
+                                         {"suite": "settings", "n_quick": 800, "n_thorough": 40000, "shards": 4, "shards_thorough": 16, "seed_off": 4}]),
         "also_props": ["C20_wiring.v"],
         "monitor_props": ["C04"],
         "mismatch_kinds": ["validate", "update"],
-        "rule": CHAIN_RULE + " For C04 the mutated neighbors break one rule at one height: timestamp shifted, tail in the future, two rewards, no reward, transaction dated after its block or before the previous one, broken link, truncated, first block dropped; production ticks are aligned, repeated, skipped and (for the correspondence only) unaligned or dated before the tip. The forks suite adds multi-neighbor rounds (isolation scenario) and rounds stamped by a real verification Engine while a neighbor already serves the next tick's block: the held tip is never dated after the node's clock.",
+        "rule": CHAIN_RULE + " For C04 the mutated neighbors break one rule at one height: timestamp shifted, tail in the future, two rewards, no reward, transaction dated after its block or before the previous one, broken link, truncated, first block dropped; production ticks are aligned, repeated, skipped and (for the correspondence only) unaligned or dated before the tip. The forks suite adds multi-neighbor rounds (isolation scenario) and rounds stamped by a real verification Engine while a neighbor already serves the next tick's block: the held tip is never dated after the node's clock. The settings suite sends protocol settings documents (every key spelling encoding/json accepts, duplicated and absent keys, nulls, boundary and wrapping numbers, a malformed stream) through the repository's decoder and the model's (Settings.v): every getter must agree, and the production period must equal the block spacing.",
         "trusted_base": CHAIN_TB,
         "assumptions": ["minimal fee >= 1, validation interval >= 0, SHA-256 collision-free on the blocks involved (blocks whose hash equals the host's block are not re-verified)",
                         "no tip is dated 0 (the code uses timestamp 0 as 'empty chain': C04_chain_ok_refuted shows the edge; real timestamps are Unix nanoseconds)",
@@ -196,10 +200,12 @@ CHECKS = {
     "C15": {
         "suites": [{"suite": "wire", "n_quick": 96, "n_thorough": 2400, "shards": 8, "shards_thorough": 16},
                    # whole lives of a node: what it serves for an id stays the content the id was computed from
-                   {"suite": "chain", "mode": "mixed", "args": "-mode mixed", "n_quick": 32, "n_thorough": 800, "shards": 4, "shards_thorough": 16, "seed_off": 15}],
+                   {"suite": "chain", "mode": "mixed", "args": "-mode mixed", "n_quick": 32, "n_thorough": 800, "shards": 4, "shards_thorough": 16, "seed_off": 15},
+                   # bytes -> tree: the model's parser against encoding/json's scanner, number grammar and unquoting
+                   {"suite": "lex", "n_quick": 40, "n_thorough": 1600, "shards": 4, "shards_thorough": 16, "seed_off": 15}],
         "monitor_props": ["C15"],
         "rule": "wire suite: (a) every block of real chains (real transactions, registry removals) served by a node is compared byte for byte with the model's printer and hash for hash / id for id with the model's SHA-256; (b) JSON text is fed to the real decoders and to the model's decoders (through a JSON reader in the OCaml glue): synthetic transactions with empty/absent lists, extreme integers, non-ASCII / HTML-special / control characters in addresses, upper-case hex, leading-zero signatures, unknown, reordered, case-varied and duplicated keys, wrong ids; block lists mutated at every schema position with every fault kind; accept/reject and the re-encoded bytes must agree; (c) monitors: decode/encode stability, same id and hash after a round trip, 'has a reward' iff no input; (d) every eighth case serves the node through the real Host over loopback TCP (golang-p2p) and asks all seven endpoints through the real client. The endpoint binding table is regenerated from source (tools/genendpoints) and checked by C15_endpoints. One blocks answer is held while the next requests are answered: its bytes must not change. distinct by JSON text",
-        "trusted_base": ["bytes <-> JSON tree: Go's lexer on one side, ocaml/jsonp.ml on the other (tested against each other, not proved)", "crypto.UnmarshalPubkey (on-curve test) is an oracle", "golang-p2p framing (gob, RSA/AES handshake) is exercised end to end, not modelled",
+        "trusted_base": ["bytes <-> JSON tree: encoding/json's scanner and unquoting are modelled by parse_json (model/JsonParse.v; parse_json (render j) = Some j is proved) and tied to Go by the lex suite and by every decoder case; Go's replacement of invalid UTF-8 by U+FFFD and its nesting limit of 10000 are not represented (texts are valid UTF-8)", "crypto.UnmarshalPubkey (on-curve test) is an oracle", "golang-p2p framing (gob, RSA/AES handshake) is exercised end to end, not modelled",
                          "tools/genendpoints (syntactic go/ast translator of node.go, host.go, neighbor.go)"],
         "assumptions": ["'different fields => different ids' is modulo a collision of SHA-256 (C15_id_binds states the disjunction)", "strings are valid UTF-8 (Go's decoder guarantees it for decoded values)"],
     },
@@ -218,7 +224,9 @@ CHECKS = {
                    {"suite": "chain", "mode": "mixed", "args": "-mode mixed", "n_quick": 64, "n_thorough": 1600, "shards": 8, "shards_thorough": 16, "seed_off": 14},
                    {"suite": "faults", "n_quick": 16, "n_thorough": 400, "shards": 4, "shards_thorough": 16, "seed_off": 14},
                    # peer-supplied targets (announced, or named as broadcaster of a transaction) reach the refresh loop of the neighborhood
-                   {"suite": "net", "n_quick": 200, "n_thorough": 8000, "shards": 4, "shards_thorough": 16, "seed_off": 14}],
+                   {"suite": "net", "n_quick": 200, "n_thorough": 8000, "shards": 4, "shards_thorough": 16, "seed_off": 14},
+                   # bytes -> tree: every text is first judged by the lexer the model's parse_json stands for
+                   {"suite": "lex", "n_quick": 40, "n_thorough": 1600, "shards": 4, "shards_thorough": 16, "seed_off": 14}],
         "also_props": ["C16.v"],
         "lockset_query": True,
         "monitor_props": ["C14"],
